@@ -33,7 +33,72 @@ def _dead_probe_hook(runner, rec, gen, rng):
     return out[:2]
 
 
+def _lazy(mod, fn):
+    def f(a, col):
+        import importlib
+        return getattr(importlib.import_module(mod), fn)(a, col)
+    return f
+
+
+def _hybrid(prop, conf_prog, mod, fn, frac=0.5):
+    def drv(a, col):
+        import importlib
+        from pwv.worker import run_programs
+        run_programs(prop, conf_prog, a.tier, a.seed, a.shard, a.nshards, a.budget * frac, col)
+        getattr(importlib.import_module(mod), fn)(a, col, a.budget * (1 - frac))
+    return drv
+
+
+def _c17_conf():
+    from pwv import oracles2 as O2
+    from pwv.drivers_misc import c17_post_step, continuation_oracle
+    return {"profile": "generic", "oracles": [O2.judge_c17, continuation_oracle()], "post_step": c17_post_step({}),
+            "opts": {"approx_ops": False, "weights": {"measure": 2.5}}}
+
+
+def _c17_driver(a, col):
+    from pwv.worker import run_programs
+    run_programs("C17", _c17_conf(), a.tier, a.seed, a.shard, a.nshards, a.budget, col)
+
+
+def _o2(name):
+    def f(rec):
+        from pwv import oracles2 as O2
+        return getattr(O2, name)(rec)
+    return f
+
+
+_C08_PROG = {"profile": "levels", "oracles": [_o2("judge_c08")], "opts": {"approx_ops": False}}
+_C10_PROG = {"profile": "resize", "oracles": [_o2("judge_resize"), _o2("judge_truncation")],
+             "opts": {"env_max": 2, "cus_max": 1, "fock_types": ["Displace", "Squeeze", "Creation", "Annihilation", "PhaseShift", "Custom"]}}
+_C11_PROG = {"profile": "optics", "oracles": [_o2("judge_c11")],
+             "opts": {"approx_ops": False, "env_min": 2, "env_max": 4, "cus_max": 0, "p_lone": 0.0,
+                      "comp_types": ["NonPolarizingBeamSplitter", "NonPolarizingBeamSplitter", "Expression"],
+                      "fock_types": ["PhaseShift", "PhaseShift", "Creation", "Identity"]}}
+_C18_PROG = {"profile": "measure", "oracles": [lambda r: O.judge_measure(r, "C05")], "opts": {"p_label": 0.8, "approx_ops": False}}
+
 PROPS = {
+    "C08": {"driver": _hybrid("C08", _C08_PROG, "pwv.twin", "c08_twin", 0.45), "profile": "levels+twin",
+            "rule": "(a) every expand/contract call (explicit, at subsystem/envelope/composite entry) judged for: joint state unchanged, level lowered only for pure / exact basis states, mixed blocks bit-identical; (b) twin runs of the same generated program with contraction on / off / toggled at random steps, steered down the same measurement branch, compared after every step (joint state, exceptions, draw distributions); case = one judged call or one twin step comparison; cell = (call, entry, storage, level, purity class, flag) or (twin, step kind, entry, operation)"},
+    "C10": {"driver": lambda a, col: __import__("pwv.worker", fromlist=["run_programs"]).run_programs("C10", _C10_PROG, a.tier, a.seed, a.shard, a.nshards, a.budget, col),
+            "profile": "resize",
+            "rule": "resize(n) with n in 1..d+3 at subsystem/envelope/composite entry on label/vector/matrix, product and entangled states, judged for return value, dimension bookkeeping and unchanged joint state; every Fock operation judged for population of the ideal (cutoff+40 reference) result outside the automatically chosen dimension; cell = (resize|auto-dim, operation, entry, storage, level, relation of n to support / state class, phase octant)"},
+    "C11": {"driver": _hybrid("C11", _C11_PROG, "pwv.drivers_misc", "c11_mzi", 0.7), "profile": "optics+mzi",
+            "rule": "beam splitters and phase shifters on random pairs of modes in random layouts (meshes of 2-4 modes, number/superposed/mixed inputs, modes entangled with polarization): total photon number distribution of the involved modes before/after, and equality with the SU(2) reference; Mach-Zehnder single-photon runs with phi in [-2pi,4pi] judged against sin^2/cos^2; cell = (optics, operation, entry, storage, level, state class) or (mzi, entry of the phase shifter, flag, angle class)"},
+    "C14": {"driver": _lazy("pwv.drivers_misc", "c14_driver"), "profile": "seed-twin",
+            "rule": "programs with projective and generalised measurements run with the real sampler: (a) twice in one process after re-seeding with unrelated activity in between, (b) in a fresh subprocess, comparing key sequence, drawn indices, outcomes and final joint state; (c) key hygiene of every draw (handed key fresh, never equal to a stored key, stored key advances); statistical guard on 256 repeated measurements; case = one comparison; cell = (comparison kind, number of draws class)"},
+    "C15": {"driver": _lazy("pwv.twin", "c15_driver"), "profile": "op-reuse-twin",
+            "rule": "twin runs of generated programs: one Operation object reused for all applications of the same description vs a fresh object per application vs unrelated operations (incl. expression composites with other operand types) constructed/applied between any two steps; per-step comparison of joint state and acceptance/rejection; byte comparison of user supplied operator/Kraus/POVM arrays; cell = (twin, step kind, operation, reused|fresh)"},
+    "C17": {"driver": _c17_driver, "profile": "fault-injection",
+            "rule": "eleven kinds of invalid request (non trace preserving / wrong-size Kraus, wrong-size POVM and custom operators, wrong subsystem kind, operand outside the envelope/composite, annihilating the vacuum, shrinking below occupied levels, destroyed subsystem, missing parameter, duplicate operands) injected after random steps of valid programs at every entry point; judged: rejected (exception or documented failure value), joint state unchanged, object graph well formed, valid continuation judged by the transition oracles; cell = (fault kind, call, entry, storage, level)"},
+    "C18": {"driver": _hybrid("C18", _C18_PROG, "pwv.twin", "c18_twin", 0.3), "profile": "collide+twin",
+            "rule": "(a) measurement oracle (who was measured, one entry per object) on worlds dominated by equal labels; (b) metamorphic twin: worlds whose subsystems hold numerically equal labels/vectors/matrices vs the same physical world with every pure local state given its own global phase; per step: exceptions, outcome key sets, live sets, storage partition and joint state must agree; cell = (twin, step kind, entry, #operands)"},
+    "C12": {"driver": _lazy("pwv.drivers_pure", "c12_driver"), "profile": "contract-sweep",
+            "rule": "contract on every operator constructor of photon_weave._math.ops and on Operation(...).operator, evaluated on a parameter sweep (angles in [-4pi, 6pi], complex alpha/zeta of any phase, cutoffs 1..24 quick / 1..40 thorough) against an independent numpy/scipy operator library plus algebraic identities; a case = one contract/identity evaluation; cell = (function, parameter class); every cell is non-trivial except none (no fresh-label notion here)"},
+    "C16": {"driver": _lazy("pwv.drivers_pure", "c16_driver"), "profile": "contract-trees",
+            "rule": "contract on photon_weave.extra.expression_interpreter.interpreter (every nested evaluation) comparing the value with an independent evaluator run on a pre-call deep copy, byte-comparing caller-owned array leaves and context results before/after, checking the dimension list handed to the context, and malformed head symbols; random trees over all seven commands with numeric/numpy/jax/context-name leaves; a case = one judged evaluation; cell = (head command, tree depth | check kind)"},
+    "C19": {"driver": _lazy("pwv.drivers_pure", "c19_driver"), "profile": "contract-overlap",
+            "rule": "contract on Envelope.overlap_integral against the closed-form Gaussian overlap, plus exchange symmetry; pulse widths log-uniform over 1e-15..10 s including the 42.45 fs default, centre offsets and delays 0..8 widths, both argument orders; a case = one judged call; cell = (decade of the narrower width, equal/unequal widths, delay in widths)"},
     "C01": {"profile": "ops", "oracles": [lambda r: O.judge_apply(r, "C01")]},
     "C02": {"profile": "structure", "oracles": [O.judge_c02]},
     "C03": {"profile": "composite", "oracles": [lambda r: O.judge_apply(r, "C03")]},
